@@ -325,6 +325,58 @@ func checkC16(c *runCtx) {
 			}
 		}
 	})
+	// one base candidate under every pair of extension lists (length 0..3 over a three-letter alphabet, so that lists
+	// with repeated entries, permutations and sub-multisets all meet): the laws again, where only the extensions differ
+	{
+		alpha := []CandidateExtension{{"network-cost", "10"}, {"network-cost", "20"}, {"generation", "0"}}
+		var lists [][]CandidateExtension
+		var gen func(cur []CandidateExtension)
+		gen = func(cur []CandidateExtension) {
+			lists = append(lists, append([]CandidateExtension{}, cur...))
+			if len(cur) == 3 {
+				return
+			}
+			for _, e := range alpha {
+				gen(append(cur, e))
+			}
+		}
+		gen(nil)
+		mk := func(l []CandidateExtension) Candidate { // through the parser: AddExtension replaces an existing key, a parsed line keeps repeats
+			line := "f1 1 udp 7 10.0.0.1 1000 typ host"
+			for _, e := range l {
+				line += " " + e.Key + " " + e.Value
+			}
+			cand, err := UnmarshalCandidate(line)
+			if err != nil {
+				return nil
+			}
+
+			return cand
+		}
+		var cands []Candidate
+		for _, l := range lists {
+			if cd := mk(l); cd != nil {
+				cands = append(cands, cd)
+			}
+		}
+		for _, a := range cands {
+			for _, b := range cands {
+				evals++
+				nontrivial++
+				dab, dba := a.DeepEqual(b), b.DeepEqual(a)
+				if dab != dba {
+					lawCls.note("DeepEqual is not symmetric (extension lists)", "", fmt.Sprintf("%q vs %q", a.Marshal(), b.Marshal()))
+				}
+				if dab && !a.Equal(b) {
+					lawCls.note("DeepEqual does not imply Equal (extension lists)", "", fmt.Sprintf("%q vs %q", a.Marshal(), b.Marshal()))
+				}
+				if a.Marshal() == b.Marshal() && !dab {
+					lawCls.note("candidates with the same textual form are not DeepEqual", "", a.Marshal())
+				}
+			}
+		}
+		c.sample(map[string]any{"part": "equality laws on extension lists", "lists": len(cands), "pairs": len(cands) * len(cands)})
+	}
 	lawCls.flush(c, "equality laws")
 	c.sample(map[string]any{"part": "equality laws", "pool": len(pool), "pairs": len(pool) * len(pool)})
 
